@@ -3,7 +3,7 @@
    clauses of the property statement, each for all operands / trees / environments. *)
 From Flocq Require Import Core BinarySingleNaN.
 Require Import ZArith NArith Bool List Arith Reals. Import ListNotations.
-Require Import F64 Dec Types Generic Lang LangLaws Spec SpecFacts FremFacts GenInterp InterpFacts.
+Require Import F64 Dec Types Generic Lang LangLaws Spec SpecFacts FremFacts InterpTypes InterpRead GenEvalArms GenValueOps GenValueOrd InterpOrd InterpOps InterpFacts.
 Notation ev E e := (fst (eval_t E e)).
 
 (* the language definition as rules (Spec.v: literals, variables, arrays and calls left to right stopping at the first failure, unary,
@@ -122,6 +122,6 @@ Theorem C03_order_is_the_table : forall a b, Some (vcmp a b) = tab_cmp a b.
 Proof. exact vcmp_is_the_table. Qed.
 Theorem C03_equality_is_the_table : forall a b, Some (veq a b) = tab_eq a b.
 Proof. exact veq_is_the_table. Qed.
-Theorem C03_small_bodies_as_modelled : gen_helpers_as_modelled = true /\ gen_ternary_as_modelled = true /\ gen_boolean_as_modelled = true /\ gen_get_values_as_modelled = true /\ gen_cmp_falls_back_on_ordinal = true.
+Theorem C03_small_bodies_as_modelled : gen_helpers_as_modelled = true /\ gen_ternary_as_modelled = true /\ gen_boolean_as_modelled = true /\ gen_get_values_as_modelled = true.
 Proof. exact helpers_as_modelled. Qed.
 Print Assumptions C03_binary_is_the_table.
